@@ -519,7 +519,15 @@ def run(repo, rep, tier):
             if isinstance(n, ast.Return) and isinstance(n.value, ast.BinOp) and isinstance(n.value.op, ast.Div):
                 t = ast.unparse(n.value).replace(" ", "")
                 if "[:-1]" in t or "[1:]" in t:
-                    ok = t in ("(bin_edges[:-1]+bin_edges[1:])/2", "(bin_edges[1:]+bin_edges[:-1])/2", "(bin_edges[:-1]+bin_edges[1:])/2.0")
+                    # (E[:-1] + E[1:]) / 2 for one and the same edge array E (whatever the local is called)
+                    v = n.value
+                    ok = False
+                    if isinstance(v.right, ast.Constant) and v.right.value in (2, 2.0) and isinstance(v.left, ast.BinOp) and isinstance(v.left.op, ast.Add):
+                        parts = [v.left.left, v.left.right]
+                        if all(isinstance(x, ast.Subscript) and isinstance(x.slice, ast.Slice) for x in parts) and \
+                                ast.unparse(parts[0].value) == ast.unparse(parts[1].value):
+                            sl = sorted(ast.unparse(x.slice).replace(" ", "") for x in parts)
+                            ok = sl == sorted([":-1", "1:"])
                     r3.ob(ok, f"{c.name}.bin_centers: midpoints of consecutive edges")
                     if not ok:
                         rep.finding("R13.3", bc, n, "bin_centers is not the midpoint `(bin_edges[:-1] + bin_edges[1:]) / 2` of consecutive "
